@@ -61,7 +61,15 @@ class BaseCache(Cache):
         return f'{self.KEY_PREFIX}{task.__class__.__qualname__}__{hashed}'
 
     def is_cached(self, storage: Storage, task: Task) -> bool:
-        return storage.exists(task.cache_key)
+        if not storage.exists(task.cache_key):
+            return False
+        # The metadata is written last by save(), so an entry is only
+        # complete (and loadable) once its metadata can be read.
+        try:
+            self.load_metadata(storage, type(task), task.cache_key)
+        except TaskNotFound:
+            return False
+        return True
 
     def save(self, storage: Storage, task: Task[ResultT], task_result: TaskResult[ResultT]):
         start_timestamp = None
@@ -80,16 +88,26 @@ class BaseCache(Cache):
             'start_timestamp': start_timestamp,
             'duration_seconds': duration_seconds,
         }
+        # Invalidate any existing entry before writing the result, and
+        # only write the metadata once the result is complete, so that
+        # a save that fails or is killed part-way never leaves an entry
+        # that looks cached.
+        with storage.file_handle(task.cache_key, self.METADATA_FILENAME, mode='w'):
+            pass
+        self.save_result(storage, task, task_result.value)
         metadata_file = storage.file_handle(task.cache_key, self.METADATA_FILENAME, mode='w')
         with metadata_file:
             json.dump(metadata, metadata_file, indent=2)
-        self.save_result(storage, task, task_result.value)
 
     def load_metadata(self, storage: Storage, task_type: Type[Task], key: str) -> dict[str, Any]:
         if not key.startswith(f'{self.KEY_PREFIX}{task_type.__qualname__}'):
             raise TaskNotFound
-        with storage.file_handle(key, self.METADATA_FILENAME, mode='r') as metadata_file:
-            metadata = json.load(metadata_file)
+        try:
+            with storage.file_handle(key, self.METADATA_FILENAME, mode='r') as metadata_file:
+                metadata = json.load(metadata_file)
+        except (OSError, ValueError):
+            # Missing or incomplete metadata: not a complete entry.
+            raise TaskNotFound
         if metadata.get('cache') != self.__class__.__qualname__:
             raise TaskNotFound
         return metadata
